@@ -134,12 +134,20 @@ def gen_table(rng, n, idclass, roots=1, shuffle_rows=False):
     return ([ids[i] for i in order], [parents[i] for i in order], [xyz[i] for i in order], [rad[i] for i in order])
 
 
-def make_tn(ids, parents, xyz, rad, id=1, name=None, units=None):
+def make_tn(ids, parents, xyz, rad, id=1, name=None, units=None, dfindex=None):
+    """dfindex: None = RangeIndex; 'offset' / 'rev' / 'gaps' = a node table that carries another index (as after
+    filtering a DataFrame by hand) – row position and index label differ."""
     df = pd.DataFrame({'node_id': np.asarray(ids, dtype=np.int64), 'parent_id': np.asarray(parents, dtype=np.int64),
                        'x': [p[0] for p in xyz], 'y': [p[1] for p in xyz], 'z': [p[2] for p in xyz],
                        'radius': np.asarray(rad, dtype=float)})
     if not len(ids):
         df = df.astype({'x': float, 'y': float, 'z': float})
+    elif dfindex == 'offset':
+        df.index = np.arange(len(df)) + 7
+    elif dfindex == 'rev':
+        df.index = np.arange(len(df))[::-1]
+    elif dfindex == 'gaps':
+        df.index = np.arange(len(df)) * 3 + 1
     return navis.TreeNeuron(df, id=id, name=name, units=units)
 
 
@@ -202,7 +210,8 @@ def case_skel(ctx, case):
     units, nm, ucls = UNITS[case.get('units', 0) % len(UNITS)]
     ctx.count('skel_ids', case['ids']); ctx.count('skel_n', min(case['n'], 10) if case['n'] < 10 else '10+')
     ctx.count('skel_radius', radius)
-    n = make_tn(ids, parents, xyz, rad, id=case.get('nid', 42), units=units)
+    n = make_tn(ids, parents, xyz, rad, id=case.get('nid', 42), units=units, dfindex=case.get('dfindex'))
+    ctx.count('skel_dfindex', str(case.get('dfindex')))
     exp_par = expected_parents(ids, parents)
     exp_verts = [(f32(x), f32(y), f32(z)) for x, y, z in xyz]
     exp_rad = [f32(v) for v in rad]
@@ -256,6 +265,10 @@ def case_skel(ctx, case):
             (abs(Fraction(tr[4 * i + j]) - want[i]) <= Fraction(want[i]) / 10 ** 6) if i == j else tr[4 * i + j] == 0
             for i in range(3) for j in range(4))
         ctx.count('info_units', str(units))
+        from harness import c14_ext as X
+        nmt = None if nm is None else (nm if isinstance(nm, tuple) else (nm, nm, nm))
+        ctx.corr(X.canon_info(info), ctx.ask(f"c14.info dir 0 {1 if radius else 0} {X.nm_payload(nmt)}"),
+                 'info file (folder) vs Lean infoWritten', case)
         sig = {'frac': 'write_info_file/transform/int-dtype-truncates-nm-scale',
                'aniso': 'write_info_file/transform/per-axis-units'}.get(ucls)
         ctx.oracle(good, f'info transform {tr} does not record the nm scale {tuple(map(str, want))} of units {units!r}', case,
@@ -311,8 +324,14 @@ def case_lean2navis(ctx, case):
             st, res = rd(lambda: navis.read_precomputed(str(d / 'sk7')))
         elif how == 'dict':
             st, res = rd(lambda: navis.read_precomputed(str(d / 'sk7'), datatype='skeleton', info=info))
+        elif how == 'dict1' and len(specs) == 1:
+            # "malformed" info the reader tolerates: vertex_attributes given as a single dict instead of a list
+            st, res = rd(lambda: navis.read_precomputed(str(d / 'sk7'), datatype='skeleton',
+                                                        info=dict(SKEL_INFO, vertex_attributes=dict(specs[0]))))
         else:
+            how = 'bytes'
             st, res = rd(lambda: navis.read_precomputed(raw, datatype='skeleton', info=info))
+        ctx.count('l2n_how', how)
         if st != 'ok':
             ctx.oracle(False, f'navis cannot read a well-formed skeleton file produced by the Lean encoder '
                               f'({len(specs)} vertex attributes): {type(res).__name__}: {str(res)[:150]}', case)
@@ -322,6 +341,15 @@ def case_lean2navis(ctx, case):
         ctx.oracle(ok, f'navis reader on Lean-encoded bytes: parents {t["parents"]} expected {exp_par}; '
                        f'verts equal {t["verts"] == verts}; attribute columns equal {t["attrs"] == cols} '
                        f'(attributes {[s["id"] for s in specs]})', case)
+        # column names and per-column values of multi-component attributes vs Lean attrColumns
+        for sp, col in zip(specs, cols):
+            mcols = ctx.ask(f"c14.cols {sp['id']} {sp['num_components']} | {','.join(map(str, col))}")
+            dt = np.dtype(sp['data_type']).newbyteorder('<')
+            have = []
+            for nm_ in ([sp['id']] if sp['num_components'] == 1 else [f"{sp['id']}_{i}" for i in range(sp['num_components'])]):
+                if nm_ in res.nodes.columns:
+                    have.append(f"{nm_}=" + ','.join(str(int(v)) for v in res.nodes[nm_].values.astype(dt).view(f'<u{dt.itemsize}')))
+            ctx.corr(';'.join(have), mcols, f"table columns of vertex attribute {sp['id']!r} ({sp['num_components']} components) vs Lean attrColumns", case)
         # the Lean model of navis' reader agrees as well
         mod = parse_skel(ctx.ask(f'c14.navis_skel {specs_payload(specs)} | {hexs}'))
         ctx.corr(dict(parents=t['parents'], verts=t['verts'], attrs=t['attrs']),
@@ -628,6 +656,16 @@ def case_batch(ctx, case):
             r.shuffle(order)
             src = [str(fdir / fn) for fn in order]
             listing = order
+        elif container == 'tar':
+            import tarfile
+            order = [fn for fn, _, _ in names]
+            r.shuffle(order)
+            src = str(d / ('arch.tar.gz' if case['seed'] % 2 else 'arch.tar'))
+            with tarfile.open(src, 'w:gz' if src.endswith('.gz') else 'w') as tf:
+                extra = ['notes.txt'] if fmt.startswith('pre_') else ['README.md']
+                for fn in extra + order:
+                    tf.add(str(fdir / fn), arcname=fn)
+            listing = order
         else:
             order = [fn for fn, _, _ in names]
             r.shuffle(order)
@@ -690,7 +728,7 @@ def case_batch(ctx, case):
                        case, signature=('PrecomputedSkeletonReader.read_buffer/truncated-at-item-boundary/accepted' if fmt == 'pre_skel'
                                         else 'PrecomputedMeshReader.read_buffer/truncated-vertex-block/accepted'))
         flags = [accepts[fn] for fn in listing]
-        kind = 'zip' if container == 'zip' else (f'par:{max(1, (len(listing) + 1) // 2)}' if parallel and listing else 'dir')
+        kind = 'zip' if container in ('zip', 'tar') else (f'par:{max(1, (len(listing) + 1) // 2)}' if parallel and listing else 'dir')
         model = ctx.ask(f"c14.batch {errors} {kind} {','.join('1' if x else '0' for x in flags)}")
         if st == 'raise':
             impl = 'RAISE'
@@ -1017,18 +1055,19 @@ def case_h5(ctx, case):
                                    signature='H5WriterV1.write_neurons/NeuronList/raw-and-serialized-not-forwarded' if aslist else None)
                         continue
                     if kd == 'skel':
-                        ok = all(np.array_equal(g[c][:], n.nodes[c].values) for c in NODE_COLS)
+                        ok = all(c in g and np.array_equal(g[c][:], n.nodes[c].values) for c in NODE_COLS)
                     elif kd == 'mesh':
-                        ok = np.array_equal(g['vertices'][:], n.vertices) and np.array_equal(g['faces'][:], n.faces)
+                        ok = all(c in g for c in ('vertices', 'faces')) and np.array_equal(g['vertices'][:], n.vertices) and np.array_equal(g['faces'][:], n.faces)
                     else:
-                        ok = np.array_equal(g['points'][:], n.points) and np.array_equal(g['vect'][:], n.vect) and int(g.attrs['k']) == n.k
+                        ok = all(c in g for c in ('points', 'vect')) and 'k' in g.attrs and np.array_equal(g['points'][:], n.points) and \
+                            np.array_equal(g['vect'][:], n.vect) and int(g.attrs['k']) == n.k
                     ctx.oracle(bool(ok), f'independent HDF5 decoder: raw {rep} datasets of neuron {n.id} differ', case)
                     un = g.attrs.get('units_nm')
                     ctx.oracle((un is None) if nm is None else (un is not None and abs(float(np.asarray(un).reshape(-1)[0]) - nm) <= 1e-6 * nm),
                                f'HDF5 units_nm = {un!r}, written units {n.units}', case)
                     if kd == 'skel' and use_conn:
                         a = grp.get('annotations/connectors')
-                        ok = a is not None and all(np.array_equal(a[c][:], n.connectors[c].values) for c in CONN_COLS)
+                        ok = a is not None and all(c in a and np.array_equal(a[c][:], n.connectors[c].values) for c in CONN_COLS)
                         ctx.oracle(bool(ok), 'independent HDF5 decoder: connectors annotation missing / differs', case,
                                    signature='H5WriterV1.write_neurons/NeuronList/raw-and-serialized-not-forwarded' if aslist else None)
         # ---- navis reader
@@ -1210,6 +1249,11 @@ def case_zipwrite(ctx, case):
                        f'info inside the zip archive: vertex_attributes = {info.get("vertex_attributes")!r} although the skeletons were '
                        f'written with radius={radius}', case)
             specs = info.get('vertex_attributes', [])
+            from harness import c14_ext as X
+            ctx.corr(X.canon_info(info), ctx.ask(f"c14.info zip 0 {1 if radius else 0} 8;8;8"), 'info file (zip) vs Lean infoWritten', case)
+            tr = info.get('transform', [])
+            ctx.oracle(len(tr) == 12 and [tr[0], tr[5], tr[10]] == [8, 8, 8] and all(tr[i] == 0 for i in range(12) if i not in (0, 5, 10)),
+                       f'info inside the zip archive: transform {tr} does not record the 8 nm scale', case)
         else:
             ctx.oracle(info.get('@type') == 'neuroglancer_legacy_mesh', f'info (zip) @type = {info.get("@type")!r}', case)
         for (n, want), nm in zip(items, want_names):
@@ -1238,8 +1282,8 @@ def case_zipwrite(ctx, case):
             if kindm == 'skel':
                 t = tn_table(x, [RADIUS_ATTR] if (radius and 'radius' in x.nodes.columns) else [])
                 got = dict(parents=t['parents'], verts=t['verts'], attrs=t['attrs'])
-                if radius and got['attrs'] == [[0] * len(want['verts'])]:
-                    got['attrs'] = 'all-zero (not read)'
+                if radius and got['attrs'] == [[0] * len(want['verts'])] and got['attrs'] != want['attrs']:
+                    got['attrs'] = 'all-zero (not read)'      # (only a label for the message; written all-zero radii are fine)
                 ctx.oracle(got == want, f'navis zip round trip (radius={radius}): parents/verts equal '
                                         f'{got["parents"] == want["parents"]}/{got["verts"] == want["verts"]}, radii read back: '
                                         f'{got["attrs"] == want["attrs"]}', case)
@@ -1258,6 +1302,55 @@ def _rand_grid(r, shape, dt):
     for _ in range(r.randint(2, max(3, int(np.prod(shape)) // 2))):
         g[tuple(r.randrange(s) for s in shape)] = r.randint(1, 100)
     return g
+
+
+def _hdr_payload(h):
+    """a (py)nrrd header as the driver's `key=val;…` (geometry keys exact, everything else opaque)"""
+    parts = []
+    for k, v in (h or {}).items():
+        k = str(k)
+        if '=' in k or ';' in k or '|' in k:
+            continue
+        if k == 'space directions':
+            sd = np.asarray(v, dtype=float)
+            if sd.ndim == 2 and sd.shape[0] >= 3:
+                parts.append('space directions=dirs:' + ':'.join(_frac_s(Fraction(float(x))) for x in np.diag(sd)[:3]))
+                continue
+        if k == 'space units' and len(v) == 3 and all(':' not in str(u) and ';' not in str(u) for u in v):
+            parts.append('space units=units:' + ':'.join(str(u) for u in v))
+            continue
+        if k in ('space dimension', 'k') and str(v).lstrip('-').isdigit():
+            parts.append(f'{k}=int:{int(v)}')
+            continue
+        parts.append(f'{k}=other')
+    return ';'.join(parts)
+
+
+def _frac_s(q):
+    return str(q.numerator) if q.denominator == 1 else f'{q.numerator}/{q.denominator}'
+
+
+def write_nrrd_checked(ctx, case, x, path, attrs=None):
+    """navis.write_nrrd + the header it produced vs the Lean interpreter of `_write_nrrd` (runOps over the generated
+    operation list) started from the header the neuron carried BEFORE the call."""
+    old = dict(getattr(x, 'nrrd_header', {}) or {})
+    is_dp = isinstance(x, navis.Dotprops)
+    mags = [Fraction(float(v)) for v in np.asarray(x.units_xyz.magnitude).reshape(-1)]
+    unit = str(x.units_xyz.units)
+    navis.write_nrrd(x, str(path), attrs=attrs)
+    hdr = nrrd.read_header(str(path))
+    ans = ctx.ask(f"c14.nrrdhdr {1 if is_dp else 0} {int(x.k) if is_dp and x.k is not None else 0} {';'.join(map(_frac_s, mags))} {unit.replace(' ', '_')} | "
+                  f"{_hdr_payload(old)} | {_hdr_payload(attrs)}")
+    m_vd, m_units, m_k, m_keys = ans.split('|')
+    sd = np.asarray(hdr.get('space directions', np.zeros((3, 3))), dtype=float)
+    have_vd = ';'.join(_frac_s(Fraction(float(v))) for v in np.diag(sd)[:3]) if sd.ndim == 2 else '?'
+    have_units = ';'.join(str(u).replace(' ', '_') for u in hdr.get('space units', [])) or '-'
+    have_k = str(hdr.get('k', '-')) if is_dp else m_k
+    ctx.corr(f'{have_vd}|{have_units}|{have_k}', f'{m_vd}|{m_units}|{m_k}',
+             'geometry in the NRRD header written vs Lean runOps(nrrdWriteOps) from the neuron\'s previous header', case)
+    managed = ('type', 'dimension', 'sizes', 'endian', 'encoding')      # recomputed by pynrrd from the data on every write
+    missing = [k for k in m_keys.split(',') if k and k not in hdr and k not in managed]
+    ctx.corr([], missing, 'header keys the Lean interpreter of _write_nrrd produces but the file lacks', case)
 
 
 def case_history(ctx, case):
@@ -1288,7 +1381,7 @@ def case_history(ctx, case):
                 if mod == 'scale':      # arithmetic changes the voxel size
                     cur = cur * 2
                     want_m = tuple(2 * v for v in want_m)
-                navis.write_nrrd(cur, str(d / f'a{i + 1}.nrrd'))
+                write_nrrd_checked(ctx, case, cur, d / f'a{i + 1}.nrrd', attrs=({'space origin': [1.0, 2.0, 3.0]} if case['seed'] % 4 == 0 else None))
             data, hdr = nrrd.read(str(d / f'a{steps}.nrrd'))
             sd = np.asarray(hdr.get('space directions', np.zeros((3, 3))), dtype=float)
             ctx.oracle(data.shape == want_g.shape and np.array_equal(data, want_g) and data.dtype == want_g.dtype,
@@ -1314,7 +1407,7 @@ def case_history(ctx, case):
                 return
             cur.units = u2
             want_pts = np.asarray(cur.points)
-            navis.write_nrrd(cur, str(d / 'a1.nrrd'))
+            write_nrrd_checked(ctx, case, cur, d / 'a1.nrrd')
             data, hdr = nrrd.read(str(d / 'a1.nrrd'))
             sd = np.asarray(hdr.get('space directions', np.zeros((3, 3))), dtype=float)
             ctx.oracle(np.array_equal(data[:, :3], want_pts) and np.array_equal(sd, np.diag(m2)) and list(hdr.get('space units', [])) == [n2] * 3,
@@ -1436,6 +1529,7 @@ def gen_cases(ctx):
     yield 'skel', dict(n=0, ids='seq1', radius=0, seed=1)
     yield 'skel', dict(n=1, ids='zero', radius=1, seed=2)
     yield 'skel', dict(n=4, ids='reversed', radius=1, seed=3, units=2)
+    yield 'skel', dict(n=5, ids='shuffled', radius=1, seed=31, dfindex='rev', shuffle=True)
     yield 'skel', dict(n=3, ids='huge', radius=0, seed=4)
     yield 'skel', dict(n=5, ids='seq1', radius=0, seed=5, units=7)
     yield 'trunc_skel', dict(n=4, radius=0, seed=6)
@@ -1466,13 +1560,13 @@ def gen_cases(ctx):
         n = r.choice([1, 2, 3, 5, 8, 13, 21, 40]) if ctx.quick() else r.choice([1, 2, 3, 5, 8, 21, 40, 120, 400])
         yield 'skel', dict(n=n, ids=r.choice(ID_CLASSES), radius=r.randint(0, 1), roots=r.choice([1, 1, 2, 4]),
                            shuffle=r.random() < 0.6, units=r.randrange(len(UNITS)) if r.random() < 0.5 else r.choice([0, 1, 2, 3]),
-                           nid=r.choice([42, 7, 123456789]), seed=S())
+                           nid=r.choice([42, 7, 123456789]), dfindex=r.choice([None, None, 'offset', 'rev', 'gaps']), seed=S())
     for _ in range(ctx.budget(9, 60)):
         yield 'skel', dict(n=r.randint(3, 9), ids='huge', radius=r.randint(0, 1), seed=S())
     for _ in range(ctx.budget(160, 1200)):
         na = r.choice([0, 1, 1, 2, 2, 3, 4])
         yield 'l2n', dict(n=r.choice([1, 2, 3, 6, 12, 30]), roots=r.choice([1, 2]), attrs=r.sample(range(len(ATTR_POOL)), na),
-                          how=r.choice(['infofile', 'dict', 'bytes']), seed=S())
+                          how=r.choice(['infofile', 'dict', 'bytes', 'dict1']), seed=S())
     # --- meshes
     for _ in range(ctx.budget(100, 750)):
         yield 'mesh', dict(nv=r.randint(3, 14 if ctx.quick() else 60), nf=r.randint(1, 12 if ctx.quick() else 80),
@@ -1487,7 +1581,7 @@ def gen_cases(ctx):
     for _ in range(ctx.budget(280, 2100)):
         k = r.randint(2, 6)
         nb = r.choice([0, 1, 1, 1, 2, k])
-        yield 'batch', dict(fmt=r.choice(fmts), k=k, container=r.choice(['dir', 'dir', 'dir_sub', 'list', 'zip']),
+        yield 'batch', dict(fmt=r.choice(fmts), k=k, container=r.choice(['dir', 'dir', 'dir_sub', 'list', 'zip', 'tar']),
                             errors=r.choice(['raise', 'log', 'ignore']), bad=sorted(r.sample(range(k), min(nb, k))),
                             how=[r.choice(['misaligned', 'garbage', 'empty', 'misaligned', 'aligned', 'count_up'])],
                             pattern=r.choice(['id', 'name_id']),
@@ -1496,7 +1590,7 @@ def gen_cases(ctx):
     for k in ((1, 2) if ctx.quick() else (1, 2, 3, 4)):
         for mask in range(2 ** k):
             for errors in ('raise', 'log', 'ignore'):
-                for container in ('dir', 'list', 'zip'):
+                for container in ('dir', 'list', 'zip', 'tar'):
                     yield 'batch', dict(fmt='pre_skel', k=k, container=container, errors=errors,
                                         bad=[i for i in range(k) if mask >> i & 1], how=['misaligned', 'empty', 'garbage'],
                                         pattern='id', parallel=False, twice=False, seed=S())
@@ -1540,6 +1634,11 @@ def gen_cases(ctx):
         yield 'fmt', gen_fmt_cases(r)
 
 
+def all_runners():
+    from harness import c14_ext
+    return dict(RUNNERS, **c14_ext.RUNNERS)
+
+
 def run(ctx):
     ctx.extra['rule'] = ('a case = (stream, parameters, seed): node table / mesh / grid / file batch regenerated from the seed; '
                          'streams: skel, l2n (Lean→navis), mesh, trunc_* (every byte offset of a small file), batch '
@@ -1551,20 +1650,26 @@ def run(ctx):
     if missing:
         ctx.notes.append(f'optional dependencies missing, their formats are skipped: {missing}')
     ctx.notes.append('pyarrow is absent (feather / parquet are not part of this property)')
-    for kind, case in gen_cases(ctx):
+    from harness import c14_ext
+    ctx.extra['rule'] += ('; second pass (harness/c14_ext.py): container (every write-side container kind × radius × units incl. non-integer / '
+                          'per-axis, info file vs Lean infoWritten), select (folder/zip/tar × reader × limit class with decoy files vs Lean '
+                          'select…AW / selectSpec), h5x, meshx, nrrdx, jsonkeys')
+    R = all_runners()
+    for kind, case in list(gen_cases(ctx)) + list(c14_ext.gen_cases(ctx)):
         c = dict(case, kind=kind)
         ctx.case(c, nontrivial=not (kind == 'skel' and case.get('n') == 0))
         ctx.count('stream', kind)
-        RUNNERS[kind](ctx, c)
+        R[kind](ctx, c)
 
 
 def replay(ctx, rp):
     cases = [rp['case']] if 'case' in rp else [d['case'] for d in rp.get('correspondence_disagreements', []) if 'case' in d]
     if not cases:   # a broken proof obligation without a failing input: re-run the corpus
-        cases = [dict(c, kind=k) for k, c in gen_cases(ctx)][:25]
+        from harness import c14_ext
+        cases = [dict(c, kind=k) for k, c in gen_cases(ctx)][:25] + [dict(c, kind=k) for k, c in c14_ext.gen_cases(ctx)][:20]
     for case in cases:
         ctx.case(case)
-        RUNNERS[case['kind']](ctx, case)
+        all_runners()[case['kind']](ctx, case)
 
 
 class _Probe:
@@ -1602,7 +1707,7 @@ def shrink(ctx, failure):
                 c['bad'] = [b for b in c['bad'] if b < v]
             p = _Probe(ctx)
             try:
-                RUNNERS[kind](p, c)
+                all_runners()[kind](p, c)
             except Exception:
                 continue
             if p.failed:
